@@ -106,7 +106,12 @@ def scan_trusted(text):
             continue
         what = m.group(0).strip('( ')
         name = ''
+        ms = re.search(r'assume_specification\s*(?:<[^>]*>)?\s*\[\s*([^\]]+?)\s*\]', ' '.join(lines[i:i + 3]))
+        if ms:
+            name = ms.group(1)
         for j in range(i, min(i + 6, len(lines))):
+            if name:
+                break
             mf = re.search(r'\bfn\s+([A-Za-z0-9_]+)', lines[j])
             if mf:
                 name = mf.group(1)
